@@ -3,7 +3,11 @@
 must fall under one of the hand-written explanations below (keyed by file and line of the pinned
 tree + fix commits); an unexplained survivor makes this script fail — look at it."""
 import json, collections, sys
+import os
 rows = [json.loads(l) for l in open('/verif/tools/mutation_sweep.jsonl')]
+n_first = len(rows)
+if os.path.exists('/verif/tools/mutation_sweep_stmt.jsonl'):
+    rows += [json.loads(l) for l in open('/verif/tools/mutation_sweep_stmt.jsonl')]
 WHY = {
  'unused-constant': 'the quire constant `ONE` is not used by any operation the three properties speak about (nor anywhere in the crate)',
  'identity': 'the mutated expression is the same function (`x ^ false` vs `x | false`; a mask bit that is always zero after normalisation; `shift < 0` vs `shift <= 0` where a shift by 0 is the same in both directions; an initial value that every path overwrites; a loop bound beyond the 8 limbs; `i == 8` never true so limb 7 takes the general branch with a zero incoming carry)',
@@ -11,10 +15,16 @@ WHY = {
  'single-posit-dead': 'in `fdp_one` (a single posit, not a product) the branch is unreachable or the operand is always zero: exponent sum never exceeds the field, the significand never carries, a posit is at least minpos so its lowest limb(s) are zero and it never reaches limb 0',
  'pxe2': 'code for the generic-width posits PxE2<N> (properties C13/C14, not decided by this family); not exercised by the C04/C12 simulator by design',
  'no-linalg': 'the mutant does not compile with softposit\'s optional `linalg` feature; the wrapper fell back to a simulator without the matrix client, which is silent by construction',
+ 'other-module': 'the statement declares the quire\'s `math` sub-module (functions the three properties do not speak about)',
  'in-comment': 'the mutated text is inside a /* block comment */',
  'still-in-range': 'property-preserving: the sampler still returns only patterns in [0, pattern(1)) — a narrower or shifted range, OR/XOR of low bits that cannot carry, or any arithmetic inside `sub_one`, whose result is saturated to 0..=0x3FFF by the clamp of fix c448680 (C19 constrains the range, not the distribution)',
 }
 RULES = [
+ ('src/quire8.rs', {4}, 'other-module'), ('src/quire16.rs', {4}, 'other-module'),
+ ('src/quire16/ops.rs', {43}, 'renormalisation'), ('src/quire16/ops.rs', {97}, 'single-posit-dead'),
+ ('src/quire16/convert.rs', {106}, 'identity'),
+ ('src/quire32/ops.rs', {49}, 'renormalisation'), ('src/quire32/ops.rs', {148, 203}, 'single-posit-dead'),
+ ('src/quire32/convert.rs', {95, 135, 140}, 'identity'),
  ('src/quire8.rs', {13}, 'unused-constant'), ('src/quire16.rs', {13}, 'unused-constant'), ('src/quire32.rs', {12}, 'unused-constant'),
  ('src/quire8/ops.rs', {68}, 'identity'), ('src/quire8/convert.rs', {65}, 'identity'),
  ('src/quire16/ops.rs', {42}, 'renormalisation'), ('src/quire16/ops.rs', {54, 108, 111}, 'identity'),
@@ -41,7 +51,7 @@ un = [r for r in surv if why(r) is None]
 byk = collections.Counter(why(r) for r in surv)
 killed_by = collections.Counter((r['by'], r['detail'].split('clause ')[1].split(' ')[0] if 'clause ' in r['detail'] else 'hang/abort') for r in rows if r['status'] == 'killed')
 out = ['# First-order mutation sweep of the code behind C04 / C12 / C19', '',
- f'{len(rows)} mutants (`tools/mutation_sweep.py`, quick checks with VERIF_RUNS=150000, checked profile only): '
+ f'{len(rows)} mutants ({n_first} token-level: operator / literal / boolean / negation; {len(rows) - n_first} statement-level: statement deleted, branch or loop condition forced) — `tools/mutation_sweep.py`, quick checks with VERIF_RUNS=150000, checked profile only: '
  f'**{c["killed"]} killed**, {c["nobuild"]} do not compile, **{c["survived"]} survive — all {len(surv) - len(un)} explained below** '
  f'({len(un)} unexplained).', '',
  'A survivor is either an equivalent mutant, a mutant that still satisfies the property, or code outside the three properties; none is a blind spot of the checks.', '',
